@@ -35,12 +35,13 @@ CHECKS = {
          'Trusted: translators gen_grammar.py, gen_jaroots.py; Unify.v; Coq kernel. Domain: categories whose atoms carry feature triples.',
          'Coq proof over translated grammar + differential cases + schema oracle', 'DESIGN.md §4 C04'),
  'C07': ('Coq models with independent decoders and round-trip theorems for conll (dependency column: one root, non-head child attaches to head child, heads inside the parent span), json, auto_extended '
-         '(field and text level), deriv (interval-stack reader, structural and raw-text level), prolog for English and Japanese (lexer + term reader of the ccg(k, ...) clauses and of the whole document, '
-         'functor tables read from the generated GenTables.v), html (MathML element tree and its printed text, regex scanner of the category text, html.escape), batch numbering; the read-back theorems of '
-         'auto/ptb/ja/xml/jigg_xml are C08/C20/C15. 33 theorems incl. one refuted statement with witness (a newline inside a feature is not printed with brackets by html). Oracle: Python decoders for '
-         'all eleven formats cross-compared with the encoded tree on every run.',
-         'Trusted: Fmt*.v models (exact-string correspondence with the real encoders, whole documents included), fmt_dec.py decoders, lxml/json/html.parser libraries. PARTIAL: the html page around the <math> '
-         'elements and the prolog header are tied by exact-string correspondence only; str.lower is modelled on A-Z (other cased category names are skipped and counted).',
+         '(field and text level), deriv (interval-stack reader, structural and raw-text level), prolog for English and Japanese (lexer + term reader of the ccg(k, ...) clauses and of the whole document incl. its '
+         'header, functor tables and header text generated from the source), html (MathML element tree and its printed text, regex scanner of the category text, html.escape, and the WHOLE document: page frame, '
+         'ID / Log prob lines, one record per tree - templates and f-string literals generated from html.py on every run), batch numbering; the read-back theorems of auto/ptb/ja/xml/jigg_xml are C08/C20/C15. '
+         '47 theorems incl. one refuted statement with witness (a newline inside a feature is not printed with brackets by html). Oracle: Python decoders for all eleven formats cross-compared with the encoded tree.',
+         'Trusted: Fmt*.v models (exact-string correspondence with the real encoders, whole documents included), translate/gen_fmt.py (templates, header, and the table of str.lower taken from the running interpreter), '
+         'fmt_dec.py decoders, lxml/json/html.parser, float formatting. PARTIAL: control flow of to_mathml / to_prolog_* is a hand-written model tied by exact-string correspondence; str.format is modelled for '
+         '{digits} fields only (the translator refuses other templates); str.lower is exact except for the context-dependent U+03A3 (such names are skipped and counted).',
          'Coq codec proofs + exact-output correspondence + eleven independent decoders', 'DESIGN.md §4 C07'),
  'C08': ('Character-level Coq model of auto_of, denormalize, conll fragments and the cursor reader _AutoLineReader (fuel = line length): read_auto(print_auto t) = canon t for every well-formed tree, '
          'reprint identity, CoNLL fragments concatenate to the AUTO line, _fix inert on printed categories (tables generated from the source). Exact correspondence with the real printer/reader through '
